@@ -58,6 +58,8 @@ def render(task):
     config = PrettyPrintConfig(out=out, include=inc, color_words=cfg["words"], use_color=cfg["color"],
                                use_git=cfg["renderer"] == "git", use_diff=cfg["renderer"] in ("git", "diff"))
     ev = {"tid": "r%d" % k, "kind": kind, "ign": ign, "color": bool(cfg["color"]), "inputHasEsc": has_esc(payload)}
+    if k % 9 == 0 and (kind == "notebook" or "b" in payload or "local" in payload):
+        return render_cli(ev, kind, payload, cfg, ign, helper_kind)
     try:
         with mergedrv.helper(helper_kind):
             if kind == "notebook":
@@ -74,6 +76,81 @@ def render(task):
     return ev
 
 
+def render_cli(ev, kind, payload, cfg, ign, helper_kind):
+    """the same rendering through the real command lines: nbdiff, nbshow, nbmerge --decisions"""
+    import contextlib
+    import logging
+    import os
+    import tempfile
+    import json as _json
+    import nbdime.log
+    from nbdime import nbdiffapp, nbshowapp, nbmergeapp, diff_notebooks
+    from nbdime.diffing.notebooks import reset_notebook_differ
+    short = {"sources": "s", "outputs": "o", "attachments": "a", "metadata": "m", "id": "i", "details": "d"}
+    flags = ["-" + short[c].upper() for c in CATS if c in ign]
+    if not cfg["color"]:
+        flags.append("--no-color")
+    if cfg["renderer"] != "git":
+        flags.append("--no-git")
+    if cfg["renderer"] == "builtin":
+        flags.append("--no-use-diff")
+    ev["tid"] += "-cli"
+    d = tempfile.mkdtemp(prefix="c16-", dir=tlc.scratch())
+    out = io.StringIO()
+    old_env = dict(os.environ)
+    os.environ.update({"JUPYTER_CONFIG_DIR": d, "JUPYTER_CONFIG_PATH": d, "HOME": d})
+    old_cwd = os.getcwd()
+    os.chdir(d)
+
+    def dump(name, nb):
+        with io.open(os.path.join(d, name), "w", encoding="utf8") as f:
+            _json.dump(nb, f)
+        return os.path.join(d, name)
+    try:
+        with mergedrv.helper(helper_kind), contextlib.redirect_stdout(out), contextlib.redirect_stderr(io.StringIO()):
+            if kind == "notebook":
+                rc = nbshowapp.main(flags[:len([c for c in CATS if c in ign])] + [dump("a.ipynb", payload["nb"])])
+            elif kind == "diff":
+                if cfg["words"]:
+                    flags.append("--color-words")
+                fa, fb = dump("a.ipynb", payload["a"]), dump("b.ipynb", payload["b"])
+                rc = nbdiffapp.main(flags + [fa, fb])
+                import nbformat
+                ev["d"] = enc_diff(diff_notebooks(nbformat.read(fa, as_version=4), nbformat.read(fb, as_version=4)))
+            else:
+                records = []
+
+                class H(logging.Handler):
+                    def emit(self, record):
+                        records.append(record.getMessage())
+                h = H()
+                nbdime.log.logger.addHandler(h)
+                old_level = nbdime.log.logger.level
+                try:
+                    fb, fl, fr = dump("b.ipynb", payload["base"]), dump("l.ipynb", payload["local"]), dump("r.ipynb", payload["remote"])
+                    rc = nbmergeapp.main(["--decisions"] + flags + [fb, fl, fr])
+                finally:
+                    nbdime.log.logger.removeHandler(h)
+                    nbdime.log.logger.setLevel(logging.CRITICAL)
+                out.write("\n".join(r for r in records if r.startswith("Decisions:")))
+        ev["out"] = enc_text(out.getvalue())
+        if kind == "notebook":
+            ev["color"] = True        # nbshow has no --no-color flag
+    except SystemExit as e:
+        ev["raised"] = {"type": "SystemExit", "where": "cli", "msg": str(e.code)}
+    except Exception as e:  # noqa
+        t, w = common.exc_info(e)
+        ev["raised"] = {"type": t, "where": w, "msg": str(e)[:200]}
+    finally:
+        os.chdir(old_cwd)
+        os.environ.clear()
+        os.environ.update(old_env)
+        reset_notebook_differ()
+        import shutil
+        shutil.rmtree(d, True)
+    return ev
+
+
 def build_inputs(chk, n_pairs, n_triples):
     from nbdime import diff_notebooks
     from nbdime.merging.notebooks import decide_notebook_merge
@@ -81,7 +158,7 @@ def build_inputs(chk, n_pairs, n_triples):
     inputs = []
     pairs = corp.pairs(n_enum=n_pairs, n_random=n_pairs // 2, n_unrelated=max(2, n_pairs // 8), salt="c16")
     for name, a, b, info in pairs:
-        inputs.append(("diff", {"a": a, "d": diff_notebooks(a, b)}))
+        inputs.append(("diff", {"a": a, "d": diff_notebooks(a, b), "b": b}))
     inputs.append(("diff", {"a": pairs[0][1], "d": []}))
     # text that is / becomes / stops being a base64 payload (the renderer snips those)
     import copy
@@ -116,7 +193,7 @@ def build_inputs(chk, n_pairs, n_triples):
             D = decide_notebook_merge(b, l, r, mergedrv.strategy_args("mergetool" if len(inputs) % 2 else "inline"))
         except Exception:
             continue
-        inputs.append(("decisions", {"base": b, "D": D}))
+        inputs.append(("decisions", {"base": b, "D": D, "local": l, "remote": r}))
     return inputs
 
 
